@@ -144,6 +144,8 @@ impl FileFormatter {
                 input_buf.clear();
 
                 let file_path = file_path?;
+                #[cfg(feature = "verif")]
+                crate::verif::before_read(&file_path, input_buf.capacity());
                 let mut file = open_options
                     .open(&file_path)
                     .with_context(|| format!("failed to open '{}'", file_path.display()))?;
@@ -166,6 +168,8 @@ impl FileFormatter {
                     Self::output_new_cursors(&inner_cursors);
                 }
 
+                #[cfg(feature = "verif")]
+                crate::verif::before_result(&file_path);
                 result_operation(&mut file, &file_path, &decoded_file, &output)
             })
             .for_each(|res| {
